@@ -257,6 +257,12 @@ theorem series_le_limit {K A V : Type} [DecidableEq K] (c : Cfg K A V) (ops : Li
     (h : (r, some o) ∈ (Store.run c (Store.init c) ops).2) : o.length ≤ max c.limit 1 :=
   run_series_le_limit c ops (Store.init c) rfl (Table.inv_empty _ _) r o h
 
+/-- … in particular within the limit itself for every limit ≥ 1 (limits 1–8, the default 2000, …) -/
+theorem series_le_limit_pos {K A V : Type} [DecidableEq K] (c : Cfg K A V) (hl : 1 ≤ c.limit) (ops : List (Op K V)) (r : Nat)
+    (o : List (K × A)) (h : (r, some o) ∈ (Store.run c (Store.init c) ops).2) : o.length ≤ c.limit := by
+  have := series_le_limit c ops r o h
+  omega
+
 theorem table_inv_record {K A V : Type} [DecidableEq K] (ag : Agg V A) {ovf : K} {t : Table K A} (hi : t.Inv ovf) (k : K) (v : V) :
     (t.record ag ovf k v).Inv ovf ∧ (t.record ag ovf k v).size ≤ max t.limit 1 := by
   have := Table.inv_record ag hi k v
